@@ -254,7 +254,7 @@ def judge_cors(case, obs):
 def run_cors(ctx, cases, label=""):
     if not cases:
         raise vlib.MachineryError("no cases (%s)" % label)
-    cases.sort(key=lambda c: json.dumps(c["rule"], sort_keys=True))
+    cases.sort(key=lambda c: json.dumps(c["rules"], sort_keys=True))
     for i, c in enumerate(cases):
         c["id"] = i + 1
     res = ctx.harness("mods1", ["cors"], cases=cases, timeout=900)
@@ -269,18 +269,18 @@ def run_cors(ctx, cases, label=""):
     for c in cases:
         obs = by[c["id"]]
         bad, drift = judge_cors(c, obs)
-        ctx.count([c["rule"], c["req"]], nontrivial=c["req"]["origin"] != "")
+        ctx.count([c["rules"], c["req"]], nontrivial=c["req"]["origin"] != "")
         for what, det in bad:
             nbad += 1
             sig = "cors/%s/%s/%s/%s/%s" % (c["form"], c["oclass"], c["kind"], c["vclass"], what)
-            rc = {k: c[k] for k in ("form", "oclass", "kind", "vclass", "rule", "req", "expP", "expM")}
-            ctx.report(sig, "rule %s request %s: %s" % (json.dumps(c["rule"]), json.dumps(c["req"]), det),
+            rc = {k: c[k] for k in ("form", "oclass", "kind", "vclass", "rules", "req", "expP", "expM")}
+            ctx.report(sig, "rules %s request %s: %s" % (json.dumps(c["rules"]), json.dumps(c["req"]), det),
                        case=rc, harness="mods1", cmd="cors")
         for f in drift:
             k = "%s/%s/%s/%s" % (c["form"], c["kind"], c["vclass"], f)
             drifts[k] = drifts.get(k, 0) + 1
     for c in cases[len(cases) // 3:len(cases) // 3 + 1] + cases[-1:]:
-        ctx.sample({"rule": c["rule"], "request": c["req"], "expected": c["expP"], "observed": by[c["id"]]})
+        ctx.sample({"rules": c["rules"], "request": c["req"], "expected": c["expP"], "observed": by[c["id"]]})
     if drifts:
         ctx.drift("action=Apply %d case classes differ from the mechanism model, e.g. %s" % (len(drifts), sorted(drifts.items())[:6]))
     ctx.traces(len(cases))
@@ -295,6 +295,8 @@ def check_c52(ctx):
     ctx.cov["exhaustive"] = True
     ctx.cov["constants"]["Cors"] = {"origins": "allowed, allowed2, other, suffix/prefix look-alikes, null, garbage, absent",
                                     "rule forms": "one, two, *, %origin, null, %origin+one", "credentials": "both",
+                                    "rule lists": "1 rule; 2 (thorough: 3) rules over {/api prefix, catch-all, never matching} x {one, *, %origin} "
+                                                  "x credentials, request path /x or /api/x: the first matching rule governs",
                                     "optional lists": "all set / none set", "request": "GET, preflight, bare OPTIONS",
                                     "vary before": "none, *, Accept-Encoding, Origin, origin, list with/without Origin, two lines; "
                                                    "plus every arrangement of <= MaxTok field names over {*, Accept-Encoding, Origin, "
